@@ -484,6 +484,30 @@ def run(ctx):
         for t in ("CL", "L", "S", "M") + tuple(BTESTS):
             ex_case(ctx, case, t, num_sim=int(r.choice([40, 80])), source="seed", seed=int(r.integers(0, 1000)))
         ctx.add("near_tie_cases")
+    # strongly peaked forecasts whose weakest active cell carries 6e-4 .. 1.5e-3 of the total rate and every positive-rate cell is active: the
+    # binary simulators must keep drawing until that cell is hit (about 1/p ~ 700-1700 draws per simulation, far inside the logical draw budget)
+    for j in range((1500 if thorough else 16) // ctx.nshards):
+        r = ctx.rng("c06peaked", j)
+        case = gridcases.gen_case(r, max_cells=6, max_mag=1, max_events=4, zero_frac=0.0, events_in_zero=False)
+        ncell = len(case["rates"])
+        if ncell < 3:
+            continue
+        big = r.uniform(1.0, 5.0, ncell)
+        weak = int(r.integers(0, ncell))
+        big[weak] = 0.0
+        zero = int((weak + 1) % ncell) if r.uniform() < 0.5 else None
+        if zero is not None and ncell >= 4:
+            big[zero] = 0.0
+        big[weak] = float(r.uniform(6e-4, 1.5e-3)) * big.sum()
+        case["rates"] = [[float(v)] for v in big]
+        act = [c for c in range(ncell) if big[c] > 0]
+        case["ev_cell"], case["ev_mag"] = act, [0] * len(act)
+        case["frac"] = r.uniform(0.2, 0.8, (len(act), 2)).tolist()
+        case["magoff"] = [0.3] * len(act)
+        case["history"], case["layout"], case["mask"] = None, None, None
+        ctx.mon("workload:peaked-feasible-binary", 1)
+        for t in ("BS", "BCL"):
+            ex_case(ctx, case, t, num_sim=int(r.choice([20, 40])), source="seed", seed=int(r.integers(0, 1000)))
     # primitives with boundary draws on long arrays (float cumsum[-1]/sum below 1 is common beyond 8 elements)
     for j in range((60000 if thorough else 150) // ctx.nshards):
         r = ctx.rng("c06prim", j)
